@@ -169,25 +169,58 @@ def normalise_field(field_name, ty_src, attrs):
                 cons.append(Constraint("spl", key=key, expr=_norm(tokstr(rest)), raw=raw))
             elif key == "constraint":
                 ex = _subst_lets(rest)
-                s = _norm(tokstr(ex))
-                # strip redundant outer parens
-                while s.startswith("( ") and s.endswith(" )") and _balanced(s[2:-2]):
-                    s = s[2:-2].strip()
-                m = None
-                for pat in KEYEQ_PATTERNS:
-                    m = pat.match(s)
+                # `constraint = a && b && c @ E` enforces exactly what three constraints a, b, c (each @ E) enforce:
+                # every top-level conjunct becomes its own normalised constraint
+                for s in _conjuncts(_norm(tokstr(ex))):
+                    m = None
+                    for pat in KEYEQ_PATTERNS:
+                        m = pat.match(s)
+                        if m:
+                            break
                     if m:
-                        break
-                if m:
-                    cons.append(Constraint("keyeq", a=m.group("a"), f=m.group("f").replace(" ", ""), b=m.group("b"),
-                                           neg=(m.group("op") == "!="), err=err, how="constraint", raw=raw))
-                else:
-                    cons.append(Constraint("pred", expr=s, err=err, raw=raw))
+                        cons.append(Constraint("keyeq", a=m.group("a"), f=m.group("f").replace(" ", ""), b=m.group("b"),
+                                               neg=(m.group("op") == "!="), err=err, how="constraint", raw=raw))
+                    else:
+                        cons.append(Constraint("pred", expr=s, err=err, raw=raw))
             elif key.startswith("realloc"):
                 cons.append(Constraint("realloc", key=key, expr=_norm(tokstr(rest)), raw=raw))
             else:
                 cons.append(Constraint("opaque", key=key, raw=raw))
     return cons
+
+
+def _strip_parens(s):
+    s = s.strip()
+    while (s.startswith("( ") and s.endswith(" )") and _balanced(s[2:-2])) or (s.startswith("{ ") and s.endswith(" }") and _balanced(s[2:-2]) and ";" not in s):
+        s = s[2:-2].strip()
+    return s
+
+
+def _conjuncts(s):
+    """top-level `&&` conjuncts of a (space separated, tokenised) boolean expression, outer parentheses stripped, recursively"""
+    s = _strip_parens(s)
+    toks = s.split(" ")
+    parts, cur, d = [], [], 0
+    hasor = False
+    for t in toks:
+        if t in ("(", "[", "{"):
+            d += 1
+        elif t in (")", "]", "}"):
+            d -= 1
+        if d == 0 and t == "||":
+            hasor = True
+        if d == 0 and t == "&&":
+            parts.append(" ".join(cur))
+            cur = []
+        else:
+            cur.append(t)
+    parts.append(" ".join(cur))
+    if hasor or len(parts) == 1:
+        return [s]
+    out = []
+    for p_ in parts:
+        out.extend(_conjuncts(p_))
+    return out
 
 
 def _balanced(s):
